@@ -89,6 +89,17 @@ func parkedReaders(buf []byte) int {
 // settled when it returned or when that many readers are parked.
 var outstanding int
 
+// baseline: readers leaked (still parked) by earlier cases that ended in HANG; only ever non-zero after a hang
+var baseline int
+
+func startCase() {
+	outstanding = 0
+	baseline = 0
+	if hangs > 0 {
+		baseline = parkedReaders(stackBuf)
+	}
+}
+
 var stackBuf = make([]byte, 1<<16)
 
 // hangs counts deadline expiries in this process.  A correct Pipe never produces one; once a broken one
@@ -131,7 +142,7 @@ func (r *runner) settle(tag string) string {
 			return tag + "=" + vh.Hex(res.data)
 		default:
 		}
-		if parkedReaders(stackBuf) >= outstanding {
+		if parkedReaders(stackBuf)-baseline >= outstanding {
 			// parked; make sure it did not complete in between
 			select {
 			case res := <-r.pending:
@@ -581,7 +592,7 @@ func execLifecycle(op string) string {
 	shared := &sync.Pool{}
 	var pipes []*runner
 	var owner []int
-	outstanding = 0
+	startCase()
 	defer func() {
 		for _, r := range pipes {
 			r.cleanup()
@@ -633,6 +644,7 @@ func execMulti(op string) string {
 	if e1 != nil || e2 != nil || capN < 0 || capN > 1<<16 || k < 1 || k > 8 {
 		return "bad-op"
 	}
+	startCase()
 	p := pipe.NewPipeWithSize(uint32(capN))
 	pend := make([]chan rdResult, k)
 	npend := 0
@@ -658,7 +670,7 @@ func execMulti(op string) string {
 				default:
 				}
 			}
-			if parkedReaders(stackBuf) >= npend {
+			if parkedReaders(stackBuf)-baseline >= npend {
 				// re-check once: a reader may have completed between the two looks
 				done := false
 				for _, ch := range pend {
@@ -973,6 +985,9 @@ func exec(op string) (out string) {
 	if strings.HasPrefix(op, "M;") {
 		return execMulti(op)
 	}
+	if strings.HasPrefix(op, "P;") {
+		return execH2Path(op)
+	}
 	if strings.HasPrefix(op, "S;") {
 		return execStress(op)
 	}
@@ -991,7 +1006,7 @@ func exec(op string) (out string) {
 	if err != nil || capN < 0 || capN > 1<<16 {
 		return "bad-op"
 	}
-	outstanding = 0
+	startCase()
 	var r *runner
 	if sized {
 		r = newSizedRunner(capN)
@@ -1161,6 +1176,9 @@ func gen(r *vh.Rand) string {
 	}
 	if r.Chance(1, 10) {
 		return genMulti(r)
+	}
+	if r.Chance(1, 25) {
+		return genH2Path(r)
 	}
 	s := &shadow{}
 	s.capN = []int{0, 1, 2, 3, 4, 5, 7, 8, 16}[r.Intn(9)]
